@@ -2,24 +2,34 @@
 
 Also holds the helpers shared with C14 (case generation, stub measurer, canonical form of a
 computed layout)."""
+import collections
 import hashlib
+import importlib
 import itertools
+import os
 import re
 from collections import Counter
 from fractions import Fraction
 
 from ete3 import TreeNode
 
-from harness import gen, sr, stubtex
+from harness import common, gen, sr, stubtex
 
 ID = "C13"
 RULE = (
     "species shapes x object shapes x leaf assignments x ALL valid species mappings (enumerated here, "
     "independently of the package and of the Lean model: every internal node tried in every species, kept "
-    "when no event is invalid), bounded-exhaustive up to 3 object leaves / 3 species leaves (quick) and "
-    "4/3, 3/4 (thorough), sampled uniformly inside the 5/5 scope, plus random inputs up to 10 object "
-    "leaves / 6 species; each with and without synteny labels, VERTICAL and HORIZONTAL, node sizes from "
-    "a stub TeX measurer (dyadic, 1..100, chosen per branch index).  Non-trivial: the reconciliation "
+    "when no event is invalid).  4/4 exhaustive in the thorough tier, 5/5 sampled: the quick tier is "
+    "bounded-exhaustive up to 3 object leaves / 3 species leaves (every reconciliation in one orientation, "
+    "15% of them in the other one as well); the thorough tier and the deep search enumerate EVERY binary "
+    "input with <= 4 object leaves x <= 4 species leaves (8,193 inputs) and EVERY valid reconciliation of "
+    "each (263,903), each drawn in BOTH orientations (one seeded size function per drawing, synteny labels "
+    "on a quarter of the drawings), spread over a pool of worker processes (each runs the real "
+    "layout.compute / tikz.render, the direct evaluation of the property and its own Lean driver); the "
+    "rest of the 5/5 scope of the property text is SAMPLED, not enumerated (random inputs with 2-5 species "
+    "/ 3-5 object leaves, a few of ALL their valid mappings, both orientations), plus random inputs up to "
+    "10 object leaves / 6 species; with and without synteny labels, VERTICAL and HORIZONTAL, node sizes "
+    "from a stub TeX measurer (dyadic, 1..100, chosen per branch index).  Non-trivial: the reconciliation "
     "has at least one full loss or one transfer."
 )
 TRUSTED = [
@@ -488,10 +498,39 @@ def small_inputs(max_o, max_s):
                         yield S, gen.fill_object(osh, iter([{"s": s} for s in sps]))
 
 
-def gen_cases(ctx, quick_random=250, thorough_random=6000):
+EXHAUSTIVE_SCOPE = (4, 4)  # object leaves, species leaves: thorough tier and deep search (C13 and C14)
+SCOPE_NAME = "exhaustive scope <=%d object leaves x <=%d species leaves" % EXHAUSTIVE_SCOPE
+
+
+def exhaustive_cases(rng, max_o, max_s, stats, both=True):
+    """EVERY binary input with <= max_o object leaves and <= max_s species leaves and EVERY valid
+    reconciliation of it: in BOTH orientations (`both`), else once, in an orientation drawn at random; size
+    seed and synteny flag drawn per case.  `stats` counts what was produced."""
+    done = set()
+    for S, O in small_inputs(max_o, max_s):
+        k = sr.solution_key({"S": S, "O": O})
+        if k in done:
+            continue
+        done.add(k)
+        stats[SCOPE_NAME + ": inputs"] += 1
+        for sol in all_valid(S, O):
+            stats[SCOPE_NAME + ": reconciliations"] += 1
+            for orient in ("V", "H") if both else (rng.choice("VH"),):
+                stats[SCOPE_NAME + ": cases"] += 1
+                yield make_case(rng, S, O, sol, orient, rng.random() < 0.25)
+
+
+def gen_cases(ctx, quick_random=250, thorough_random=6000, stats=None, both=True):
+    """`stats` (a Counter) given: the caller is C13 / C14 itself and gets, with the thorough budget, the whole
+    EXHAUSTIVE_SCOPE (meant to be spread over processes, see run_pooled); other users (C15) keep the smaller
+    scopes below, which they thin out anyway."""
     rng = ctx.rng
     # bounded-exhaustive part
-    scopes = [(3, 3)] + ([(4, 3), (3, 4)] if ctx.budget(False, True) else [])
+    if stats is not None and ctx.budget(False, True):
+        yield from exhaustive_cases(rng, *EXHAUSTIVE_SCOPE, stats, both)
+        scopes = []
+    else:
+        scopes = [(3, 3)] + ([(4, 3), (3, 4)] if ctx.budget(False, True) else [])
     done = set()
     for max_o, max_s in scopes:
         for S, O in small_inputs(max_o, max_s):
@@ -603,13 +642,133 @@ def run_batches(ctx, res, cases, size=400):
     check_cases(ctx, res, batch)
 
 
+# --------------------------------------------------------------------------
+# process pool (thorough tier and deep search)
+
+POOL_WORKERS = 16
+VIOLATION_CAP = 50  # Result keeps at most this many violations; nothing is learnt by going on after that
+_WORKER_CTX = {}
+
+
+def pool_size():
+    try:
+        want = int(os.environ.get("VERIF_JOBS", "") or POOL_WORKERS)
+    except ValueError:
+        want = POOL_WORKERS
+    return max(1, min(POOL_WORKERS, want, os.cpu_count() or 1))
+
+
+def pool_init():
+    """Every worker is a fresh interpreter (spawn) that imports superrec2 from the SAME tree as the parent:
+    SUPERREC2_REPO is inherited through the environment and setup_repo_path() refuses any other origin."""
+    common.setup_repo_path()
+
+
+def pool_work(job):
+    """In a worker: the check module's own check_cases on a chunk (the real layout.compute / tikz.render under
+    the stub measurer, the property evaluated directly, the model through this worker's own Lean driver
+    process — one Python worker + one driver per core, DESIGN 2.3), collected in a local Result."""
+    modname, prop, tier, seed, cases = job
+    mod = importlib.import_module(modname)
+    ctx = _WORKER_CTX.get(prop)
+    if ctx is None:
+        ctx = _WORKER_CTX[prop] = common.Ctx(prop, tier, seed)
+        ctx.driver.parallel = lambda reqs, jobs=1, timeout=3000: ctx.driver.batch(reqs, timeout)
+    res = common.Result()
+    mod.check_cases(ctx, res, cases)
+    return {"evaluations": res.evaluations, "nontrivial": res.nontrivial, "dist": res.dist,
+            "samples": res.samples, "concrete": res.concrete, "mismatch": res.mismatch, "notes": res.notes}
+
+
+def merge_result(res, part):
+    res.evaluations += part["evaluations"]
+    res.nontrivial |= part["nontrivial"]
+    res.dist.update(part["dist"])
+    res.samples += part["samples"][:max(0, 6 - len(res.samples))]
+    res.concrete += part["concrete"][:max(0, VIOLATION_CAP - len(res.concrete))]
+    res.mismatch += part["mismatch"][:max(0, 50 - len(res.mismatch))]
+    res.notes += [n for n in part["notes"] if n not in res.notes][:max(0, 20 - len(res.notes))]
+
+
+def run_pooled(ctx, res, mod, cases, chunk=500):
+    """Stream `cases` (an iterator, consumed lazily in this process, from ctx.rng) through a pool of worker
+    processes running `mod.check_cases` (pool_work) and merge their Results in the order of generation, so
+    that what is reported does not depend on scheduling.  At most 2 x workers chunks exist at any time: memory
+    does not grow with the size of the scope.  Returns True when every case was judged, False when the
+    stream was cut short at VIOLATION_CAP violations."""
+    import multiprocessing
+    from concurrent.futures import ProcessPoolExecutor
+    from concurrent.futures import TimeoutError as FutureTimeout
+    from concurrent.futures.process import BrokenProcessPool
+    from pickle import PicklingError
+
+    n = pool_size()
+    it = iter(cases)
+    pending = collections.deque()
+    ex = ProcessPoolExecutor(n, mp_context=multiprocessing.get_context("spawn"), initializer=pool_init)
+    complete = True
+
+    def fill():
+        while len(pending) < 2 * n:
+            part = list(itertools.islice(it, chunk))
+            if not part:
+                return
+            pending.append(ex.submit(pool_work, (mod.__name__, ctx.prop, ctx.tier, ctx.seed, part)))
+
+    try:
+        fill()
+        while pending:
+            fut = pending.popleft()
+            try:
+                part = fut.result(timeout=3000)
+            except (BrokenProcessPool, FutureTimeout, OSError, PicklingError) as e:
+                # a worker died / timed out / could not be talked to: never a verdict.  (An exception raised
+                # by check_cases itself comes back unchanged, as in the single-process run.)
+                raise common.Infra(f"worker process failed: {type(e).__name__}: {e}") from e
+            merge_result(res, part)
+            if len(res.concrete) >= VIOLATION_CAP:
+                complete = False
+                break
+            fill()
+    finally:
+        ex.shutdown(wait=True, cancel_futures=True)
+    return complete
+
+
+def scope_report(ctx, res, stats, complete, how):
+    """What the bounded-exhaustive part of this run covered, said in the evidence (the property as a whole
+    quantifies over the 5/5 scope, larger random inputs and arbitrary sizes: it is never `exhaustive`)."""
+    res.exhaustive = False
+    if not stats:
+        res.notes.append("quick tier: bounded-exhaustive up to 3 object leaves / 3 species leaves only (one "
+                         "orientation per reconciliation, 15% in both); the 4/4 scope is enumerated in the "
+                         "thorough tier and in the deep search; 5/5 is sampled")
+        return
+    if not complete:  # only happens on the way to a VIOLATION
+        res.notes.append(f"{SCOPE_NAME}: NOT completed, the run was cut short at {VIOLATION_CAP} violations "
+                         f"({res.evaluations} cases judged in all)")
+        return
+    for k, v in stats.items():
+        res.dist[k] += v
+    res.notes.append(
+        f"{SCOPE_NAME}: every input ({stats[SCOPE_NAME + ': inputs']}) and every valid reconciliation of it "
+        f"({stats[SCOPE_NAME + ': reconciliations']}) {how} ({stats[SCOPE_NAME + ': cases']} cases, "
+        f"{pool_size()} worker processes); the 5/5 scope of the property text beyond it is sampled and sizes "
+        "are sampled: the property is NOT exhaustively covered")
+
+
 def corpus(ctx, res):
     check_cases(ctx, res, CORPUS)
 
 
 def run(ctx, res):
-    run_batches(ctx, res, gen_cases(ctx))
-    res.exhaustive = False
+    if not ctx.budget(False, True):  # quick tier: in this process, as before
+        run_batches(ctx, res, gen_cases(ctx))
+        scope_report(ctx, res, None, True, "")
+        return
+    stats = Counter()
+    complete = run_pooled(ctx, res, importlib.import_module(__name__), gen_cases(ctx, stats=stats))
+    scope_report(ctx, res, stats, complete, "in both orientations, one seeded size function per drawing")
 
 
 def replay(ctx, data):
